@@ -12,7 +12,7 @@ Search     : on a disagreement the spec itself (extracted tube_amplitude with Sn
              also disagrees with the spec the input is a failing input.
 """
 import numpy as np
-from common import Check
+from common import Check, close
 import arimgen
 from arimgen import fhex, unhex
 
@@ -60,18 +60,22 @@ bad = 0
 for m, o in zip(meta, outs):
     b, rb, vd, ta = (unhex(x) for x in o.split())
     m.update(model_beamspread=b, model_reverse=rb, model_virtual_distance=vd, spec_tube_amplitude=ta)
-    if m["legs_n"] >= 2:
+    if m["legs_n"] >= 2 and b == b:
         nontrivial.add((m["setup"], m["path"], m["i"], m["j"]))
-    ok = abs(m["impl"] - b) <= TOL * max(abs(b), abs(m["impl"]))
+    ok = close(m["impl"], b, TOL)
+    if b != b:
+        chk.count(regime="beyond total reflection (virtual distance < 0, nan on both sides)")
+    else:
+        chk.count(regime="regular")
     if not ok:
         bad += 1
         # spec predicate on the implementation's output: tube amplitude with Snell betas
-        spec_fails = not (abs(m["impl"] - ta) <= 1e-9 * abs(ta))
+        spec_fails = not close(m["impl"], ta, 1e-9)
         chk.violation(f"beamspread:{m['path']}",
                       f"beamspread_2d_for_path differs from the model on path {m['path']} ray ({m['i']},{m['j']})",
                       dict(m, correspondence="Model.Beamspread.beamspread (extracted) vs arim.model.beamspread_2d_for_path"),
                       failing_input_found=spec_fails)
-    okr = abs(m["impl_rev"] - rb) <= TOL * max(abs(rb), abs(m["impl_rev"]))
+    okr = close(m["impl_rev"], rb, TOL)
     if not okr:
         chk.violation(f"reverse_beamspread:{m['path']}",
                       f"reverse_beamspread_2d_for_path differs from the model on path {m['path']}",
